@@ -37,12 +37,31 @@ def _run(cmd, timeout, cwd=LEAN, inp=None):
     return p.returncode, p.stdout + p.stderr
 
 
+_SNAPSHOT = None
+
+
 def build(targets, timeout=3000):
-    """lake build of the given targets. Returns (ok, log, seconds)."""
+    """lake build of the given targets. Returns (ok, log, seconds). While still holding the lock, the driver binary
+    is copied aside so that a concurrent relink by another check cannot pull it away under this run."""
+    global _SNAPSHOT
     t0 = time.time()
     with Lock():
         rc, out = _run(["lake", "build"] + list(targets), timeout)
+        if os.path.exists(DRIVER):
+            import shutil
+            snap = os.path.join(WORK, f"frdriver.{os.getpid()}")
+            try:
+                shutil.copy2(DRIVER, snap)
+                _SNAPSHOT = snap
+                import atexit
+                atexit.register(lambda: os.path.exists(snap) and os.remove(snap))
+            except OSError:
+                _SNAPSHOT = None
     return rc == 0, out, time.time() - t0
+
+
+def driver_path():
+    return _SNAPSHOT if _SNAPSHOT and os.path.exists(_SNAPSHOT) else DRIVER
 
 
 def strip_comments(src):
@@ -154,7 +173,7 @@ def drive(ops, timeout=1800):
     if not ops:
         return []
     inp = "".join(json.dumps(o, separators=(",", ":")) + "\n" for o in ops)
-    p = subprocess.run([DRIVER], input=inp, capture_output=True, text=True, timeout=timeout)
+    p = subprocess.run([driver_path()], input=inp, capture_output=True, text=True, timeout=timeout)
     if p.returncode != 0:
         raise RuntimeError(f"frdriver exit {p.returncode}: {p.stderr[-500:]}")
     lines = p.stdout.splitlines()
